@@ -8,6 +8,7 @@ import (
 
 	"verif/cfg"
 	"verif/core"
+	"verif/sg"
 	"verif/wl"
 )
 
@@ -291,7 +292,9 @@ func runC11(c *core.Ctx) {
 	n2 := c.PerShard(c.N(700000, 30000000))
 	for i := 0; i < n2; i++ {
 		var d []byte
-		switch i % 5 {
+		switch i % 7 {
+		case 5:
+			d = []byte(sg.Document(r, 3, 5, 4, nil).Markdown)
 		case 0:
 			d = wl.SoupFrom(r, c08Lines, 1+r.Intn(10))
 		case 1:
@@ -301,7 +304,7 @@ func runC11(c *core.Ctx) {
 		default:
 			d = wl.Mix(r, corpus)
 		}
-		if i%6 == 5 {
+		if i%6 == 4 {
 			unsafe := r.Intn(2) == 0
 			a, b := gfmA, gfmB
 			a.Unsafe, b.Unsafe = unsafe, unsafe
